@@ -104,11 +104,18 @@ impl Read for Script {
                 Err(io::Error::new(kind_of(k), ScriptErr(k)))
             }
             Some(Seg::Pause) => {
+                PAUSE_SEEN.with(|p| p.set(true));
                 log.events.push(LogEv::ReadPause);
                 Err(io::Error::new(io::ErrorKind::Other, PauseMarker))
             }
         }
     }
+}
+
+thread_local! {
+    /// a read of a scripted connection on this thread has met the peer's silence since the flag was last cleared
+    /// (lets a sink tell what it was given BEFORE the library went back to a connection that had nothing more)
+    pub static PAUSE_SEEN: std::cell::Cell<bool> = const { std::cell::Cell::new(false) };
 }
 
 thread_local! {
